@@ -265,7 +265,9 @@ def w_any(t):
 
 
 def run(ctx):
-    V = sorted(set([0, 1, 2, 3, 4, 511, 512, 513, 1021, 1022, 1023] + list(range(0, 1024, 41))))
+    from engine.util import source_words
+    lit = [x for x in source_words(["decoder/bds/bds09.py", "decoder/bds/bds06.py", "decoder/adsb.py"])["ints"] if 0 <= x < 1024]
+    V = sorted(set([0, 1, 2, 3, 4, 511, 512, 513, 1021, 1022, 1023] + list(range(0, 1024, 41)) + sorted(lit)[:40]))
     full = list(range(1024))
     tasks = []
     for st in (1, 2):
